@@ -23,6 +23,8 @@ Any disagreement on the unchanged tree is a modelling finding.
 """
 import numpy as np
 
+import c12_binary64
+
 MAXD = 1000
 
 STATS = dict(subgraphs=0, flat=0, samples=0, merged_pairs=0, strict_pairs=0, max_density_not_1000=0,
@@ -69,6 +71,7 @@ def check(D, adj, k, sg, dens, cost):
     const = sg.constant
     pdf = recompute_pdf(D, adj, k, const)
     mn, mx = np.float64(sg.min_density), np.float64(sg.max_density)
+    c12_binary64.observe(D, adj, k, const, mn, mx, sg.density)   # counts where Props/C12_binary64_run.v's capstone applies
     STATS["subgraphs"] += 1
     STATS["samples"] += n
     if any(not (p >= 0.0) for p in pdf):
@@ -183,4 +186,5 @@ def summary():
                       "pdf_i <= pdf_j -> density_i <= density_j, min -> 1.0, density >= 1.0, 0 <= cost <= density, cost < density; "
                       "merged_pairs = distinct pdf values mapped to one density (allowed: weak monotonicity), "
                       "max_density_not_1000 = fits whose largest density is not exactly MAX_DENSITY (allowed: model limit)")
+    s["binary64_run"] = c12_binary64.summary()
     return s
